@@ -130,6 +130,30 @@ class Source:
         nl = t.find("\n", a, i)
         return Region(self, (nl + 1) if nl >= 0 else a + 1, j + 1)
 
+    def fn_body(self, fn_region):
+        """Statements of a function body (between its outer braces)."""
+        t = self.text
+        # the body's opening brace is the last '{' that is matched by the region's final '}'
+        depth, i, open_at = 0, fn_region.start, None
+        while i < fn_region.end:
+            if t.startswith("//", i):
+                i = t.find("\n", i)
+                continue
+            if t[i] == "{":
+                if depth == 0:
+                    open_at = i
+                depth += 1
+            elif t[i] == "}":
+                depth -= 1
+            i += 1
+        if open_at is None:
+            raise LostAnchor("no body in %s" % self.rel)
+        nl = t.find("\n", open_at)
+        e = fn_region.end - 1
+        while t[e - 1] in " \t\n":
+            e -= 1
+        return Region(self, nl + 1, e)
+
     def tail_after(self, fn_region, after):
         """Everything after the statement text `after` up to (excluding) the closing brace of the function body."""
         a = self._unique(after, fn_region.start, fn_region.end) + len(after)
@@ -177,11 +201,12 @@ _BLANKS = re.compile(r"\n[ \t]*\n([ \t]*\n)+")
 class Piece:
     """Extracted region + mechanical transforms + spec insertions."""
 
-    def __init__(self, region, drop_comments=True, drop_attrs=(), drop_tokens=(), rewrite_asserts=False, keep_attrs=False):
+    def __init__(self, region, drop_comments=True, drop_attrs=(), drop_tokens=(), rewrite_asserts=False, keep_attrs=False,
+                 renames=()):
         self.region = region
         self.transforms = []
         self.params = dict(drop_comments=drop_comments, drop_attrs=tuple(drop_attrs), drop_tokens=tuple(drop_tokens),
-                           rewrite_asserts=rewrite_asserts)
+                           rewrite_asserts=rewrite_asserts, renames=tuple(renames))
         self.base = self._transform(region.text)
         self.inserts = []  # (offset in base, text, label)
 
@@ -205,8 +230,19 @@ class Piece:
                 raise LostAnchor("token to drop occurs %d times in %s: %r" % (t.count(tok), self.region.src.rel, tok))
             t = t.replace(tok, "")
             self.transforms.append("token dropped: %r" % tok)
+        for old, new in p["renames"]:
+            if old in t:
+                t = t.replace(old, new)
+                self.transforms.append("token renamed everywhere: %r -> %r" % (old, new))
         if p["rewrite_asserts"]:
             k = [0]
+            # multi-line `assert!(E, "message");` first: joined onto one line without the message
+            def rw_multi(m):
+                return "%sassert!(%s);" % (m.group(1), re.sub(r"\s+", " ", m.group(2)).strip())
+            t2 = re.sub(r'^([ \t]*)assert!\(\s*\n\s*(.*?),\s*\n\s*"[^"\n]*"\s*\n?\s*\);[ \t]*$', rw_multi, t, flags=re.M | re.S)
+            if t2 != t:
+                self.transforms.append("multi-line assert!(E, \"message\") joined and its message dropped")
+            t = t2
 
             def rw(m):
                 k[0] += 1
